@@ -249,27 +249,33 @@ def predict(st, call):
         return Outcome(OK, "sync_numrecs 'collective, but can be called in independent data mode' [F]")
 
     if fam == "define":    # def_dim, def_var, def_var_fill
+        arg = ve if ve is not None else call.get("argerr")
         if mode != DEFINE:
-            al = [E["ENOTINDEFINE"]] if not ro else [E["ENOTINDEFINE"], E["EPERM"]]
-            return Outcome(al, "definition outside define mode [MAN][V][H]; ncid-related errors precede argument errors [EP]")
-        if ve is not None:
-            return Outcome([ve], "def_var_fill varid check [V]")
-        if call.get("argerr") is not None:
-            return Outcome([call["argerr"]], "argument error in define mode")
+            # [MAN][V][H] the mode error is documented; that it precedes an argument error that applies as well, or
+            # NC_EPERM on a read-only file, is only the general guideline of [EP] -> either code is allowed
+            al = [E["ENOTINDEFINE"]] + ([E["EPERM"]] if ro else []) + ([arg] if arg is not None else [])
+            return Outcome(al, "definition outside define mode [MAN][V][H]")
+        if arg is not None:
+            return Outcome([arg], "argument error of a definition in define mode [V]")
         return Outcome(OK, "definition in define mode [MAN]")
 
     if fam == "set_fill":
-        code = _first([(ro, E["EPERM"]), (mode != DEFINE, E["ENOTINDEFINE"])])
-        return Outcome(OK if code is None else [code], "set_fill: read-only NC_EPERM, 'not allowed to call in data mode' [F][MAN]")
+        if ro:
+            # a read-only file is never in define mode: both errors apply, their order is not documented for set_fill
+            return Outcome([E["EPERM"], E["ENOTINDEFINE"]], "set_fill on a read-only file [F]")
+        if mode != DEFINE:
+            return Outcome([E["ENOTINDEFINE"]], "set_fill 'not allowed to call in data mode' [F][MAN]")
+        return Outcome(OK, "set_fill in define mode [MAN]")
 
     if fam == "rename":    # rename_dim / rename_var / rename_att
+        arg = ve if ve is not None else call.get("argerr")
+        needdef = bool(call.get("longer")) and mode != DEFINE
         if ro:
-            return Outcome([E["EPERM"]], "rename 'cannot be read-only' [A][V]; NC_EPERM precedes argument errors [EP]")
-        if ve is not None:
-            return Outcome([ve], "rename varid check")
-        if call.get("argerr") is not None:
-            return Outcome([call["argerr"]], "rename argument error")
-        if call.get("longer") and mode != DEFINE:
+            # 'cannot be read-only' [A][V]; NC_EPERM precedes varid/argument errors [EP]; versus NC_ENOTINDEFINE undocumented
+            return Outcome([E["EPERM"]] + ([E["ENOTINDEFINE"]] if needdef else []), "rename on a read-only file [A][V][EP]")
+        if arg is not None:
+            return Outcome([arg] + ([E["ENOTINDEFINE"]] if needdef else []), "rename argument error")
+        if needdef:
             return Outcome([E["ENOTINDEFINE"]], "longer name outside define mode [MAN]")
         return Outcome(OK, "rename in define mode, or to a name that is not longer in data mode [MAN]")
 
@@ -284,13 +290,22 @@ def predict(st, call):
         return Outcome(OK if code is None else [code], "put attribute precedence [EP]; new/larger attribute needs define mode [MAN]")
 
     if fam == "del_att":
-        code = _first([(ro, E["EPERM"]), (mode != DEFINE, E["ENOTINDEFINE"]), (ve is not None, ve),
-                       (call.get("missing"), E["ENOTATT"])])
-        return Outcome(OK if code is None else [code], "del_att 'cannot be read-only', 'must be called in define mode' [A]")
+        # [A] 'cannot be read-only', 'must be called in define mode'; the order among the errors that apply together is
+        # not documented for del_att -> any of them
+        ap = ([E["EPERM"]] if ro else []) + ([E["ENOTINDEFINE"]] if mode != DEFINE else []) + \
+             ([ve] if ve is not None else []) + ([E["ENOTATT"]] if call.get("missing") else [])
+        return Outcome(ap or OK, "del_att [A]")
 
     if fam == "copy_att":
-        code = _first([(ro, E["EPERM"]), (ve is not None, ve), (call.get("grows") and mode != DEFINE, E["ENOTINDEFINE"])])
-        return Outcome(OK if code is None else [code], "copy_att 'cannot be read-only' [A]; new attribute needs define mode (same rule as put_att [MAN])")
+        needdef = bool(call.get("grows")) and mode != DEFINE
+        extra = [E["ENOTINDEFINE"]] if needdef else []
+        if ro:
+            return Outcome([E["EPERM"]] + extra, "copy_att 'cannot be read-only' [A]; NC_EPERM precedes varid errors [EP]")
+        if ve is not None:
+            return Outcome([ve] + extra, "copy_att varid error")
+        if needdef:
+            return Outcome(extra, "copy_att: a new attribute needs define mode (same rule as put_att [MAN])")
+        return Outcome(OK, "copy_att in define mode, or onto an attribute of the same size in data mode")
 
     if fam in ("inq", "get_att"):
         # legal in every mode; argument errors are mode independent
